@@ -25,6 +25,12 @@ func runAnalyze(c *gen.APICase) (doc O, ans oracle.Answers, abnormal string, har
 			}
 		}
 	}
+	// lookups by id with another letter case of an existing id (must miss unless that is an id too)
+	for _, t := range oracle.OperationIDs(c.Doc) {
+		if t[2] != "" {
+			extra = append(extra, wproto.Call{M: "OperationForName", A: []string{strings.ToUpper(t[2])}}, wproto.Call{M: "OperationForName", A: []string{strings.ToLower(t[2])}})
+		}
+	}
 	req := &wproto.Request{Op: "analyze", Docs: map[string]string{"/vfs/doc.json": string(Marshal(c.Doc))}, RootPath: "/vfs/doc.json", Calls: extra}
 	count("library_calls", 1)
 	resp, crash, _, err := call(worker(), req)
